@@ -78,6 +78,18 @@ def ci_oracle(pymol, mo_a, mo_b, keep_a, keep_b, focc_a, focc_b, na_act, nb_act,
     return (e, len(idx), (idx, v[:, 0], m)) if return_vec else (e, len(idx))
 
 
+def sector_spectrum(pymol, mo_a, mo_b, keep_a, keep_b, focc_a, focc_b, na_act, nb_act):
+    """All eigenvalues (incl. nuclear repulsion) of the sector that ci_oracle minimises over."""
+    keep_a, keep_b = list(keep_a), list(keep_b)
+    H, m = build_hamiltonian(pymol, mo_a, mo_b, keep_a, keep_b)
+    pos_a = {k: i for i, k in enumerate(keep_a)}
+    pos_b = {k: len(keep_a) + i for i, k in enumerate(keep_b)}
+    fo = [pos_a[k] for k in focc_a] + [pos_b[k] for k in focc_b]
+    idx = sector(m, len(keep_a), fo, na_act + len(focc_a), nb_act + len(focc_b))
+    Hs = H[idx, :][:, idx].toarray()
+    return np.linalg.eigvalsh((Hs + Hs.conj().T) / 2) + pymol.energy_nuc()
+
+
 def determinant_energy(pymol, mo_a, mo_b, occ_a, occ_b):
     """Energy of the single determinant with the listed occupied MOs (incl. nuclear repulsion)."""
     keep_a, keep_b = list(occ_a), list(occ_b)
